@@ -232,6 +232,9 @@ func isBool(t types.Type) bool {
 }
 
 func (in *Interp) zero(t types.Type) Value {
+	if a, ok := t.Underlying().(*types.Array); ok && a.Len() > 1<<12 {
+		in.unsupported("by-value array of %d elements", a.Len())
+	}
 	switch u := t.Underlying().(type) {
 	case *types.Basic:
 		if w, _, ok := isInt(u); ok {
@@ -302,6 +305,17 @@ func (in *Interp) newCell(t types.Type) *Cell {
 	case *types.Array:
 		c.agg = 2
 		n := int(u.Len())
+		if n > 1<<12 {
+			// large arrays: element cells are created on first touch
+			c.typ = u.Elem()
+			if n > 1<<16 {
+				c.big = map[int]*Cell{}
+				c.bigN = n
+			} else {
+				c.sub = make([]*Cell, n)
+			}
+			return c
+		}
 		c.sub = make([]*Cell, n)
 		for i := range c.sub {
 			c.sub[i] = in.newCell(u.Elem())
@@ -347,7 +361,17 @@ func (in *Interp) elem(arr *Cell, i int) *Cell {
 	return c
 }
 
+func arrLen(c *Cell) int {
+	if c.big != nil {
+		return c.bigN
+	}
+	return len(c.sub)
+}
+
 func (in *Interp) load(c *Cell) Value {
+	if c.big != nil {
+		in.unsupported("load of a whole large array")
+	}
 	switch c.agg {
 	case 0:
 		in.raceRead(c)
